@@ -245,7 +245,8 @@ def _eval_deltas(pt, seed, tier, wide=False):
         elif empty:
             combos = [(2, "edge", (0, 1, 2, 3)), (1, "reflect", (0, 2))]
         elif wide:
-            combos = WIDE_COMBOS
+            # (quick) a negative axis is an alias of a non-negative one: one combination
+            combos = WIDE_COMBOS if not (axis < 0 and tier == "quick") else [(2, "edge", (0, 2))]
         elif axis < 0 and tier == "quick":
             combos = [(2, "edge", (0, 1, 2, 3)), (3, "reflect", (0, 1, 2, 3))]
         else:
@@ -825,7 +826,8 @@ def subchecks(tier, seed):
             "dtype = input dtype, documented shape, input untouched; the filtered blocks against the Kaldi "
             "recursion with a relative tolerance of 1e-12 on the largest magnitude (uint64: only where the "
             "filter output is a positive value of the dtype); non-trivial = num_deltas > 0 and a non-empty "
-            "tensor" % (WIDE_COMBOS,),
+            "tensor%s" % (WIDE_COMBOS, "; negative axis values: (2, edge, num_deltas 0 and 2) only"
+                          if tier == "quick" else ""),
             axes=dict(shape="all shapes with <= 3 dims, extents in {0,1,2,3,5}" +
                             (" (3-D shapes containing 5: a fixed subset)" if tier == "quick" else ""),
                       dtype=list(DTYPES_WIDE), axis="-ndim..ndim-1", combos=[list(map(str, c)) for c in WIDE_COMBOS],
